@@ -9,9 +9,11 @@ Abstractions.
 * A CSR is an opaque token (`csr : Nat` stands for its bytes) with two observable
   attributes supplied by the harness: the key identifier of its public key and whether
   `verify_signature()` succeeds.
-* `StoredBgpSecCsr` contains `since: Time::now()`; `stored_csr != &csr` therefore compares
-  the time of the *earlier* request with the current time (seconds).  The model keeps
-  `since` and takes `now` as a parameter.
+* `StoredBgpSecCsr` contains `since: Time::now()` (full clock resolution in memory);
+  `stored_csr != &csr` therefore also compares the time the *earlier* request was processed
+  with the current time, so re-submitting an identical definition is an update, not a no-op.
+  The model keeps `since`, takes the clock reading `now` of the first addition as a
+  parameter and lets the clock tick once per addition.
 * Resource sets are normalised lists of inclusive ranges per type (ASN, IPv4, IPv6), as
   rpki-rs keeps them; `contains` asks every range of the right-hand side to lie within one
   range of the left-hand side.  rpki-rs's block arithmetic is not modelled (its output is
@@ -90,19 +92,21 @@ def bgpsecRemoveStep (acc : BgpsecDefs × List BgpsecEv) (k : BgpsecKey) :
   if !(acc.1.has k) then .error (.unknown k)
   else .ok (acc.1.remove k, acc.2 ++ [.removed k])
 
-def bgpsecAddStep (holdsAsn : Nat → Bool) (now : Nat) (acc : BgpsecDefs × List BgpsecEv)
-    (d : BgpsecDef) : Except BgpsecErr (BgpsecDefs × List BgpsecEv) :=
+/-- Body of the addition loop (bgpsec.rs:133-169); the third component of the accumulator
+is the clock. -/
+def bgpsecAddStep (holdsAsn : Nat → Bool) (acc : BgpsecDefs × List BgpsecEv × Nat)
+    (d : BgpsecDef) : Except BgpsecErr (BgpsecDefs × List BgpsecEv × Nat) :=
   if !d.valid then .error (.invalidlySigned d.asn d.key)
   else
     let k : BgpsecKey := ⟨d.asn, d.key⟩
-    let c : StoredCsr := ⟨now, d.csr⟩
+    let c : StoredCsr := ⟨acc.2.2, d.csr⟩
     if !(holdsAsn d.asn) then .error (.notEntitled k)
     else
       match acc.1.get? k with
       | some stored =>
-        if stored != c then .ok (acc.1.addOrReplace k c, acc.2 ++ [.updated k c])
-        else .ok acc
-      | none => .ok (acc.1.addOrReplace k c, acc.2 ++ [.added k c])
+        if stored != c then .ok (acc.1.addOrReplace k c, acc.2.1 ++ [.updated k c], acc.2.2 + 1)
+        else .ok (acc.1, acc.2.1, acc.2.2 + 1)
+      | none => .ok (acc.1.addOrReplace k c, acc.2.1 ++ [.added k c], acc.2.2 + 1)
 
 def foldlE' {α β ε} (f : β → α → Except ε β) : β → List α → Except ε β
   | b, [] => .ok b
@@ -116,7 +120,10 @@ def bgpsecProcessUpdates (s : BgpsecDefs) (holdsAsn : Nat → Bool) (now : Nat) 
     Except BgpsecErr (BgpsecDefs × List BgpsecEv) :=
   match foldlE' bgpsecRemoveStep (s, []) u.remove with
   | .error e => .error e
-  | .ok acc => foldlE' (bgpsecAddStep holdsAsn now) acc u.add
+  | .ok acc =>
+    match foldlE' (bgpsecAddStep holdsAsn) (acc.1, acc.2, now) u.add with
+    | .error e => .error e
+    | .ok r => .ok (r.1, r.2.1)
 
 def bgpsecCommand (s : BgpsecDefs) (holdsAsn : Nat → Bool) (now : Nat) (u : BgpsecUpdates) :
     BgpsecDefs :=
